@@ -362,8 +362,12 @@ fn check_cont(run: &Run, c: &Cont) {
                         run.tr();
                         match guard(|| (c.ln_pdf)(x)) {
                             Ok(l) => {
-                                if !((l - want_ln).abs() <= 1e-9 * want_ln.abs().max(1.0)) {
-                                    run.violate(&site("ln_pdf"), || format!("{}({}).ln_pdf({:e}) = {:e}, ln of the density {:e}", law, c.params, x, l, want_ln));
+                                // "the log-density equals the logarithm of the density": of the density as
+                                // returned (where the textbook value is demanded of the density, it is thereby
+                                // demanded of the log-density too)
+                                let lg = g.ln();
+                                if !((l - lg).abs() <= 1e-9 * lg.abs().max(1.0)) {
+                                    run.violate(&site("ln_pdf"), || format!("{}({}).ln_pdf({:e}) = {:e}, ln of the density {:e} (textbook {:e})", law, c.params, x, l, lg, want_ln));
                                 }
                             }
                             Err(p) => run.violate(&site("ln_pdf/panic"), || format!("{}({}).ln_pdf({:e}): {}", law, c.params, x, p)),
